@@ -265,7 +265,13 @@ def main(argv):
     ap.add_argument("--replay")
     a = ap.parse_args(argv)
     seed = int(os.environ.get("VERIF_SEED", "20260930"))
-    rc = run(a.prop.upper(), a.tier, seed, a.replay)
+    try:
+        rc = run(a.prop.upper(), a.tier, seed, a.replay)
+    except Exception:
+        # a crash of the harness itself is not a verdict about the property
+        traceback.print_exc()
+        sys.stdout.flush()
+        return 2
     sys.stdout.flush()
     return rc
 
